@@ -308,6 +308,12 @@ def _case(rng, name, quick):
     emb_gain = None
     if name == 'vmfmm' or (name == 'vmfcacgmm' and rng.random() < 0.6):
         emb_gain = np.abs(_gain(rng, tuple(lead) + (N,), *span))
+        if rng.random() < 0.25:
+            # nearly unit-norm embeddings with gains within 1 +- 1e-4: a normalisation skipped for "already normalised"
+            # input (np.allclose(norm, 1)) lets exactly these through
+            emb = emb / np.linalg.norm(emb, axis=-1, keepdims=True)
+            emb_gain = 1.0 + rng.uniform(-9e-5, 9e-5, size=tuple(lead) + (N,))
+            span = ('near-one', 'near-one')
         if name == 'vmfcacgmm' and rng.random() < 0.5:
             gain = None         # embedding stream alone
     it = int(rng.integers(1, 7 if quick else 21))
@@ -345,7 +351,7 @@ def search(ctx):
         inp, meta = _case(rng, name, quick)
         ctx.count('model:' + name)
         ctx.count(f'wca:{inp["opts"]["weight_constant_axis"]}')
-        ctx.count(f'gain-span:1e{meta["span"][0]}..1e{meta["span"][1]}')
+        ctx.count(f'gain-span:1e{meta["span"][0]}..1e{meta["span"][1]}' if meta['span'][0] != 'near-one' else 'gain-span:1+-1e-4')
         if 'inline_permutation_aligner' in inp['opts'] or inp['opts'].get('inline_permutation_alignment'):
             ctx.count('with-inline-aligner')
         ok = ctx.run(mixture_gain_invariance, **inp)
@@ -377,7 +383,7 @@ def search_history(ctx):
                 meta['span'] = span
         inp.pop('model')
         ctx.count(f'history:{name}:{variant}')
-        ctx.count(f'history-gain-span:1e{meta["span"][0]}..1e{meta["span"][1]}')
+        ctx.count(f'history-gain-span:1e{meta["span"][0]}..1e{meta["span"][1]}' if meta['span'][0] != 'near-one' else 'history-gain-span:1+-1e-4')
         ctx.run(history_gain_invariance, model=name, variant=variant, **inp)
 
 
